@@ -51,7 +51,14 @@ def instances(tier, seed):
             # (CableSpan re-normalises unit vectors: nested square roots make each power identity a ~10-30 s query)
             out.append(dict(name="span:%s/via%d" % (nm, nvia), args=[spec_, str(nvia), "span"], paths=1, nvia=nvia, tier=tier, allow_events=True,
                             part="all", qsel=len(out), base_points=1 if tier == "quick" else 3))
-    return out
+    return _post(out)
+
+
+def _post(insts):
+    for i in insts:
+        i.setdefault("twin_timeout_ms", 8000)      # twins are model searches over square-root variables: cap them
+        i.setdefault("flip_timeout_ms", 3000)
+    return insts
 
 
 def free_sets(inst, tr, tier, rng):
